@@ -175,11 +175,25 @@ def inverse_topology(outer, update, topology, inverse=None, multi_updates=True):
                 for child, child_update in update.items():
                     inner = normalize_path(outer + path + (child,))
                     if isinstance(child_update, dict):
+                        if multi_updates:
+                            # another port may point at the same child
+                            inverse = update_in(
+                                inverse,
+                                inner,
+                                lambda current: deep_merge_multi_update(
+                                    current, child_update))
+                        else:
+                            inverse = update_in(
+                                inverse,
+                                inner,
+                                lambda current: deep_merge(
+                                    current, child_update))
+                    elif multi_updates and inner:
                         inverse = update_in(
                             inverse,
-                            inner,
-                            lambda current: deep_merge(
-                                current, child_update))
+                            inner[:-1],
+                            lambda current: deep_merge_multi_update(
+                                current, {inner[-1]: child_update}))
                     else:
                         assoc_path(inverse, inner, child_update)
 
